@@ -145,8 +145,13 @@ class Builder:
     def write(self, path, text):
         full = self.abspath(path)
         os.makedirs(os.path.dirname(full), exist_ok=True)
+        new = not os.path.exists(full)
         with open(full, 'w', encoding='utf-8', newline='') as fh:
             fh.write(text)
+        if new and path not in self.ever and self.rnd.random() < 0.2:
+            # a file that arrives with the executable bit set (copied from a FAT/SMB share, unpacked from a zip): git tracks it as mode 100755
+            os.chmod(full, 0o755)
+            self.log.append('(mode 755) %s' % path)
         self.files[path] = text
         self.ever.add(path)
 
